@@ -26,6 +26,7 @@ warnings.filterwarnings("ignore", category=PendingDeprecationWarning)
 warnings.filterwarnings("ignore", category=DeprecationWarning)
 
 OPS = ["idxs_to_coords/FlwdirRaster.xy", "coords_to_idxs/FlwdirRaster.index", "rowcol(op,precision)",
+       "index/coords_to_idxs/rowcol of one point as float / NumPy scalar / 0-d array",
        "array_bounds/bounds/extent", "affine_to_coords", "transform_from_origin/bounds",
        "distance", "stream_distance(unit=m) first steps", "area_grid/FlwdirRaster.area"]
 RULE = ("axis-aligned transforms with resolutions of either sign: +-2^k (exact class, points also exactly on cell "
@@ -34,7 +35,8 @@ RULE = ("axis-aligned transforms with resolutions of either sign: +-2^k (exact c
         "global grids and polar caps with non-dyadic row heights 180/N (N = 7..4000 log-uniform, 0.9/0.3/0.2/0.1/0.05/"
         "1/12/1/60/1/120 degree; up to 21600 rows x 1..8 columns, north-up and south-up, pole at the origin or at the far "
         "edge), non-dyadic 'realistic' resolutions; shapes incl. 1xN, Nx1; all 8 neighbours + far pairs; units m2/ha/km2/cell/"
-        "unknown. non-trivial = >= 2 cells and |xres| != |yres|; distinct = SHA-1 of (op, transform, shape, inputs)")
+        "unknown; single points as Python float/int, np.float64, 0-d array, mixed and 1-element array: inside, on edges, "
+        "within one cell outside the origin-side / far edges (also 1 ulp), up to 3 cells outside, NaN/inf. non-trivial = >= 2 cells and |xres| != |yres|; distinct = SHA-1 of (op, transform, shape, inputs)")
 
 EXC = {1: "IndexError", 2: "ValueError", 3: "other:TransformNotInvertibleError"}
 REL = Fr(1, 10 ** 12)
@@ -361,6 +363,159 @@ def case_index(ctx, rng, T, cls, shape, nontriv):
     req = {**targs(T), "nrow": nrow, "ncol": ncol, **rargs("x", [fr(x) for x in xs]), **rargs("y", [fr(y) for y in ys]),
            "op": opc, "prec": prec}
     ctx.add(desc, [("c17_index", req)], judge, nontrivial=nontriv)
+
+
+def gen_point1(rng, T, cls, shape):
+    """ONE point of the raster extended by up to three cells on EVERY side, as exact pixel coordinates
+    (row + fy, col + fx): inside, exactly on edges / corners (exact class), within one cell outside the
+    origin-side edges (pixel coordinate in (-1, 0): truncation and floor differ there), within one cell outside
+    the far edges, a few cells outside, one ulp on either side of the origin-side edges (exact class).
+    returns (x, y, where)"""
+    nrow, ncol = shape
+    a, b, c, d, e, f = (fr(v) for v in T[:6])
+    fracs = [Fr(1, 4), Fr(1, 2), Fr(3, 4)] + ([Fr(0)] * 2 if cls == "exact" else [])
+
+    def axis(n, where):
+        """(whole, frac) pixel coordinate along an axis of n cells"""
+        if where == "in":
+            return rng.randrange(n), rng.choice(fracs)
+        if where == "lo1":     # less than one cell outside the origin-side edge (or exactly one cell: frac 0)
+            return -1, rng.choice(fracs)
+        if where == "hi1":     # on the far edge or less than one cell beyond it
+            return n, rng.choice(fracs)
+        if where == "lo":
+            return -rng.randint(2, 3), rng.choice(fracs)
+        return n + rng.randint(1, 2), rng.choice(fracs)  # "hi"
+
+    u = rng.random()
+    if u < 0.22:
+        wr, wc = "in", "in"
+    elif u < 0.62:  # origin side, within one cell: row only / column only / both
+        wr, wc = rng.choice([("lo1", "in"), ("in", "lo1"), ("lo1", "lo1"), ("lo1", "hi1"), ("hi1", "lo1")])
+    elif u < 0.80:
+        wr, wc = rng.choice([("hi1", "in"), ("in", "hi1"), ("hi1", "hi1")])
+    else:
+        wr, wc = rng.choice([("lo", "in"), ("in", "lo"), ("hi", "in"), ("in", "hi"), ("lo", "lo1"), ("lo1", "hi"),
+                             ("hi", "hi"), ("lo", "hi"), ("hi", "lo")])
+    (r, fy), (cc, fx) = axis(nrow, wr), axis(ncol, wc)
+    x, y = exact(c + (cc + fx) * a + (r + fy) * b), exact(f + (cc + fx) * d + (r + fy) * e)
+    where = wr + "/" + wc
+    if cls == "exact" and rng.random() < 0.2 and c != 0 and f != 0:
+        # one ulp outside / inside the origin-side edge(s): (x - c) / a is tiny and exact in float arithmetic
+        which = rng.choice(["x", "y", "xy"])
+        side = rng.choice([-1, 1])  # sign of the pixel coordinate
+        if "x" in which:
+            x = float(np.nextafter(float(c), math.copysign(math.inf, side * float(a))))
+        if "y" in which:
+            y = float(np.nextafter(float(f), math.copysign(math.inf, side * float(e))))
+        where = "ulp-" + ("outside" if side < 0 else "inside") + "-origin-edge:" + which + "|" + where
+    return x, y, where
+
+
+def point_forms(x, y):
+    """the same point as a one-element array call and as every kind of scalar call"""
+    forms = [("array[1]", np.array([x]), np.array([y])), ("python float", x, y),
+             ("np.float64 scalar", np.float64(x), np.float64(y)), ("0-d array", np.array(x), np.array(y)),
+             ("float x / 0-d array y", x, np.array(y)), ("np.float64 x / float y", np.float64(x), y)]
+    if float(x).is_integer() and float(y).is_integer():
+        forms.append(("python int", int(x), int(y)))
+    return forms
+
+
+def case_index_scalar(ctx, rng, T, cls, shape, nontriv):
+    """index / coords_to_idxs / rowcol of ONE point given as Python float, NumPy scalar, 0-d array (and int where
+    integral): every form is judged like the one-element array call (IndexError iff outside; the containing cell)"""
+    from pyflwdir import gis_utils as gis
+    nrow, ncol = shape
+    x, y, where = gen_point1(rng, T, cls, shape)
+    opn, prec = "floor", None
+    if cls != "rot" and rng.random() < 0.15:
+        opn = rng.choice(["ceil", "round", "floor"])
+        prec = rng.choice([None, 0, 1, 2, 3] if cls == "exact" else [None, 1, 2, 3])
+        if opn == "round" and cls != "exact":
+            opn = "ceil"
+        if where.startswith("ulp"):
+            prec = None  # (the eps shift of a point one ulp off the edge is not exact)
+    opc = {"floor": 0, "ceil": 1, "round": 2}[opn]
+    npop = {"floor": np.floor, "ceil": np.ceil, "round": np.round}[opn]
+    default = opn == "floor" and prec is None
+    kw = {} if default else {"op": npop, "precision": prec}
+    via = rng.choice(["gis", "flw"])
+    fn = (lambda X, Y: gis.coords_to_idxs(X, Y, T, shape, **kw)) if via == "gis" else None
+    if fn is None:
+        flw = flw_of(shape, T, cls == "geo")
+        fn = lambda X, Y: flw.index(X, Y, **kw)  # noqa: E731
+    res, rc = [], []
+    for name, X, Y in point_forms(x, y):
+        err, val = call(fn, X, Y)
+        res.append((name, err, None if val is None else ints(val)))
+        if err is None and name != "array[1]":
+            ctx.count("index-scalar:result-ndim=%d" % np.ndim(val))
+        err, val = call(gis.rowcol, T, X, Y, **kw)
+        rc.append((name, err, None if val is None else [ints(val[0]), ints(val[1])]))
+    ctx.count("index-scalar:" + (res[0][1] or "ok") + ("" if default else ":op/prec"))
+    ctx.count("index-scalar-point:" + where.split("|")[0])
+    desc = {"op": ("coords_to_idxs" if via == "gis" else "FlwdirRaster.index") + " + rowcol, one point in every scalar form",
+            "transform": tdesc(T), "shape": list(shape), "x": x, "y": y, "point": where, "rounding": opn,
+            "precision": prec}
+
+    def judge(ans):
+        a, ar = ans
+        if derr(a) or derr(ar):
+            return derr(a) or derr(ar)
+        fs = []
+        mstat = EXC.get(a["status"][0])
+        sstat = EXC.get(a["spec.status"][0])
+        for name, err, impl in res:
+            if mstat != err or (err is None and impl != a["model.idxs"]):
+                fs.append({"kind": "model", "what": f"coords_to_idxs({name}): implementation != Lean model",
+                           "impl": err or impl, "model": mstat or a.get("model.idxs")})
+            if default and cls != "rot":
+                if sstat != err:
+                    fs.append({"kind": "spec", "what": f"point given as {name}: coordinates outside the raster must raise "
+                               f"IndexError (and only then): got {err or 'returns ' + str(impl)}, containing-cell search "
+                               f"says {sstat or 'inside'}"})
+                elif err is None and impl != a["spec.idxs"]:
+                    fs.append({"kind": "spec", "what": f"point given as {name}: returned index is not the cell that "
+                               "contains the point", "impl": impl, "spec": a["spec.idxs"]})
+            if (err, impl) != res[0][1:]:
+                fs.append({"kind": "spec", "what": f"point given as {name}: result differs from the array call with one "
+                           f"element: {err or impl} vs {res[0][1] or res[0][2]}"})
+        rstat = EXC.get(ar["status"][0])
+        rmodel = None if rstat else [ar["model.rows"], ar["model.cols"]]
+        for name, err, impl in rc:
+            if rstat != err or impl != rmodel:
+                fs.append({"kind": "model", "what": f"rowcol({name}): implementation != Lean model", "impl": err or impl,
+                           "model": rstat or rmodel})
+            if (err, impl) != rc[0][1:]:
+                fs.append({"kind": "spec", "what": f"rowcol of a point given as {name} differs from the array call with one "
+                           f"element: {err or impl} vs {rc[0][1] or rc[0][2]}"})
+        return fs
+
+    pt = {**rargs("x", [fr(x)]), **rargs("y", [fr(y)]), "op": opc, "prec": prec}
+    ctx.add(desc, [("c17_index", {**targs(T), "nrow": nrow, "ncol": ncol, **pt}), ("c17_rowcol", {**targs(T), **pt})],
+            judge, nontrivial=nontriv)
+
+
+def case_index_nonfinite(ctx, rng, T, cls, shape):
+    """NaN / infinite coordinates are not inside any raster: IndexError, in every call form (no Lean op: the
+    driver takes rationals)"""
+    from pyflwdir import gis_utils as gis
+    nrow, ncol = shape
+    a, e, c, f = T[0], T[4], T[2], T[5]
+    good = (c + (rng.randrange(ncol) + 0.5) * a, f + (rng.randrange(nrow) + 0.5) * e)
+    bad = rng.choice([math.nan, math.inf, -math.inf])
+    x, y = rng.choice([(bad, good[1]), (good[0], bad), (bad, bad)])
+    res = [(name, call(gis.coords_to_idxs, X, Y, T, shape)) for name, X, Y in point_forms(x, y)]
+    ctx.count("index-nonfinite:" + (res[0][1][0] or "returns"))
+    desc = {"op": "coords_to_idxs, non-finite coordinate in every scalar form", "transform": tdesc(T),
+            "shape": list(shape), "x": repr(x), "y": repr(y)}
+    fs = []
+    for name, (err, val) in res:
+        if err != "IndexError":
+            fs.append({"kind": "spec", "what": f"non-finite point given as {name}: coordinates outside the raster must "
+                       f"raise IndexError, got {err or 'returns ' + str(ints(val))}"})
+    ctx.add(desc, [], lambda ans: fs, nontrivial=False)
 
 
 def case_rowcol(ctx, rng, T, cls, shape, nontriv):
@@ -900,10 +1055,18 @@ def case_real(ctx, rng, T, shape):
         pts += [(c - 0.5 * a, f + (r + 0.5) * e), (c + (ncol + 0.5) * a, f + (r + 0.5) * e)]
     pts += [(c - 0.5 * a, f + (nrow + 0.5) * e), (c + (ncol + 0.5) * a, f - 0.5 * e)]  # diagonal corners
     for (x, y) in pts:
-        err, _ = call(flw.index, np.array([x]), np.array([y]))
-        if err != "IndexError":
-            ctx.fail({**desc, "op": "index", "x": x, "y": y}, "spec",
-                     f"point half a cell outside the raster must raise IndexError, got {err or 'returns'}")
+        for form, X, Y in point_forms(float(x), float(y))[:4]:  # one-element arrays and scalars
+            err, _ = call(flw.index, X, Y)
+            if err != "IndexError":
+                ctx.fail({**desc, "op": "index", "x": x, "y": y, "given as": form}, "spec",
+                         f"point half a cell outside the raster ({form}) must raise IndexError, got {err or 'returns'}")
+    # every cell centre as a scalar call
+    for i in rng.sample(range(n), min(n, 6)):
+        for form, X, Y in point_forms(float(xs[i]), float(ys[i]))[1:4]:
+            err, val = call(flw.index, X, Y)
+            if err is not None or ints(val) != [i]:
+                ctx.fail({**desc, "op": "index", "x": float(xs[i]), "y": float(ys[i]), "given as": form}, "spec",
+                         f"round trip index(xy({i})) with a scalar point ({form}): {err or ints(val)}")
 
 
 def exhaustive_small(ctx):
@@ -1018,6 +1181,11 @@ def run(ctx):
         case_xy(ctx, rng, T, cls, shape, nontriv)
         case_index(ctx, rng, T, cls, shape, nontriv)
         case_index(ctx, rng, T, cls, shape, nontriv)
+        case_index_scalar(ctx, rng, T, cls, shape, nontriv)
+        if k % 2 == 1:
+            case_index_scalar(ctx, rng, T, cls, shape, nontriv)
+        if cls != "rot" and k % 5 == 0:
+            case_index_nonfinite(ctx, rng, T, cls, shape)
         case_rowcol(ctx, rng, T, cls, shape, nontriv)
         case_bounds(ctx, rng, T, cls, shape, nontriv)
         if cls != "rot":
